@@ -47,6 +47,25 @@ CHECKS = {
  "C20": e1("DESIGN.md §4 C20", "Fragment sequences (<=3 over F, <=4 core, <=3 over core + exotic syntax), URL strings in three positions (<=3 fragments, and <=3 tail fragments after five well-formed prefixes), link attribute lists <=3 (<=2 under every combination of the five link options x rel / target admission), against every policy of the family inside the property's class plus Strict and UGC (with the del/ins proviso): Sanitize(Sanitize(x)) == Sanitize(x). Style declarations (<=2 over C10's alphabet) under every in-class style rule set and a permissive value pattern. Two known findings (rel/target order, two mirror-image policy shapes) are listed in known_findings.jsonl."),
 }
 
+# additions after rounds 7 of the seeded-change work (appended to the texts above)
+ADD = {
+ "C01": " Comment bodies with entity-encoded terminators and raw-text elements holding an unfinished comment are in the fragment alphabets.",
+ "C03": " Two policies whose scheme pattern also matches the empty string (relative URLs not allowed) are in the family.",
+ "C04": " Hostile data: URIs wrapped with line feeds are among the XSS fragments; relative URLs with a colon in the path among the conforming ones.",
+ "C05": " Depth layer (15 ... 4096 open attribute-less elements before the script), size layer (bodies of 64 KiB ... 3 MiB), attribute-count layer, and comment bodies with entity-encoded terminators under comment-allowing policies.",
+ "C07": " Under AllowUnsafe with script / style allowed, bodies containing > < & \" ' must come back unchanged.",
+ "C08": " Depth probes: 4 ... 65537 nested skip-content elements with a marker between the closers must leave exactly the content that follows.",
+ "C09": " A raw-text layer puts every removed raw-text element around tag-shaped text inside and next to kept elements.",
+ "C10": " Interleaved bracket kinds, strings containing their own quote escaped, escapes of white space at the ends of a value, and a handler that accepts everything except url( / expression( are in the alphabet / family; the harness splits declarations with a stack of expected closers.",
+ "C11": " With exactly one href and at most one target, a rel token that neither the input carried nor an option in force requires for that link is a violation too; slash-less special-scheme hrefs (https:e.x, ftp:e.x) count as having a host, as for a browser.",
+ "C13": " Further explorations: two short documents whose elements are removed for lack of attributes at <=2 preemptions; map ranges with more than four keys in sorted and reverse order on a probe with stacked vendor prefixes; the streaming entry point into a destination whose Write is a scheduling point. Quick explores <=2 preemptions on one document pair and the short pair, <=1 on the other five pairs; thorough all.",
+ "C15": " A seekable reader from which a prefix was already read must yield the result for the remaining suffix.",
+ "C18": " Glue between accepted value and hostile fragment: nothing, space, doubled space, tab, line feed, comma, comma + space, slash, spaced slash, semicolon.",
+ "C20": " A policy admitting ftp / tel by scheme pattern only is in the URL layers (ten prefixes incl. ftp://e.x/ and tel:1; %26 among the tails).",
+}
+for k, v in ADD.items():
+    t = list(CHECKS[k]); t[4] = t[4] + v; CHECKS[k] = tuple(t)
+
 built = [i for i in ids if i in CHECKS and os.environ.get("ONLY", i) ]
 checks = []
 for i in ids:
